@@ -1885,7 +1885,7 @@ theorem fixed_point_rectangular (v : Variant) (hf10 : v.f10 = false) (t : Table)
   obtain ⟨hne, h10⟩ := readFromRealTable_of_rectangular v hf10 t hrect hau regs hp
   exact fixed_point_core v t regs hp hau hne h8 h10
 
-/-! ### the code as it is now (`Variant.current`: F8, F9, F121 repaired; F10 and F122 open) -/
+/-! ### the code as it is now (`Variant.current`: F8, F9, F121, F122 repaired; F10 open) -/
 
 theorem roundTrip_of_fileRoundTrip (v : Variant) (h : FileRoundTrip v) : RoundTrip v :=
   ((fileRoundTrip_iff v).mp h |> fun ⟨h8, h9, h10, _⟩ => (roundTrip_iff v).mpr ⟨h8, h9, h10⟩)
@@ -1895,7 +1895,7 @@ def fits_roundtrip_full : Prop := RoundTrip Variant.current
 
 /-- refuted on the model of the current code, by F10 alone: the witness `wF10` (a triangle next to
 a quadrilateral) comes back with a fourth vertex `(0, 0)` on the triangle. -/
-theorem fits_roundtrip_full_refuted : ¬ fits_roundtrip_full := not_roundtrip_of_F10 true true true false
+theorem fits_roundtrip_full_refuted : ¬ fits_roundtrip_full := not_roundtrip_of_F10 true true true true
 
 /-- the F10 input class, exactly: some polygon (or regular polygon) of the list has fewer vertices
 than the X column is wide, i.e. than the longest polygon of the list.  `NoShortPolygon` is its
@@ -2111,14 +2111,15 @@ example : (∀ r ∈ sampleList, representable r = true) ∧ NoShortPolygon samp
 /-- and the witness of the refutation is outside it. -/
 example : (∀ r ∈ wF10, representable r = true) ∧ ¬ NoShortPolygon wF10 := by decide +kernel
 
-/-- a unit mix-up would be visible: in the table of `[ellipse 1/2 rad, rectangle 10 deg]` the ROTANG column is
-in radians and the rectangle's angle comes back as `10 · (1 deg / 1 rad)` rad — not as `10` rad. -/
+/-- a unit mix-up would be visible: every angle is written in degrees (F122 repaired), so in the table of
+`[ellipse 1/2 rad, rectangle 10 deg]` the ellipse's angle comes back as `1/2 · (1 rad / 1 deg)` deg — not
+as `1/2` deg — and the rectangle's as `10` deg. -/
 example :
     parseTable Variant.current (serialize Variant.current
       [⟨.ellipse, false, [1], [2], [4, 2], some (1 / 2), .absent, none, radian⟩,
        ⟨.rectangle, false, [1], [2], [4, 2], some 10, .absent, none, AUnit.degree⟩]) =
-    .ok [⟨.ellipse, false, [1], [2], [4, 2], some (1 / 2), .absent, none, radian⟩,
-         ⟨.rectangle, false, [1], [2], [4, 2], some (10 * 1 / radian.deg), .absent, none, radian⟩] := by
+    .ok [⟨.ellipse, false, [1], [2], [4, 2], some (1 / 2 * radian.deg), .absent, none, AUnit.degree⟩,
+         ⟨.rectangle, false, [1], [2], [4, 2], some 10, .absent, none, AUnit.degree⟩] := by
   decide +kernel
 
 /-- `fits_roundtrip` with the F10 patch applied as well: the full property. -/
@@ -2128,37 +2129,28 @@ theorem fits_roundtrip_fixed : RoundTrip Variant.fixed :=
 /-- through a file, full strength, current code. -/
 def fits_file_roundtrip_full : Prop := FileRoundTrip Variant.current
 
-/-- refuted by the same F10 witness, and independently by the F122 witness `wF122`
-(`not_fileRoundtrip_of_F122`: an angle in hour angle in the first row). -/
+/-- refuted by the same F10 witness — and now only through F10 (F121 and F122 are repaired: every table the
+writer produces can be stored; `fileRoundTrip_iff`). -/
 theorem fits_file_roundtrip_full_refuted : ¬ fits_file_roundtrip_full :=
-  fun h => not_roundtrip_of_F10 true true true false (roundTrip_of_fileRoundTrip _ h)
+  fun h => not_roundtrip_of_F10 true true true true (roundTrip_of_fileRoundTrip _ h)
 
-theorem fits_file_roundtrip_full_refuted' : ¬ fits_file_roundtrip_full :=
-  not_fileRoundtrip_of_F122 true true false true
-
-/-- the F122 input class, exactly: the unit of the first written angle (the unit the ROTANG column
-takes; degrees if the first written region has no angle) is one `astropy.io.fits` cannot store.
-`StorableUnit` is its complement.  Decidable. -/
-def StorableUnit (regs : List Reg) : Prop := (colUnitOf Variant.current regs).fits = true
-
-instance (regs : List Reg) : Decidable (StorableUnit regs) := by unfold StorableUnit; infer_instance
-
-/-- through a file, partial: `NoShortPolygon` (F10) and `StorableUnit` (F122), nothing else (components
-absent, given, or partly given; angles in any mix of units), for every lawful file layer. -/
+/-- through a file, partial: `NoShortPolygon` (F10), nothing else (components absent, given, or partly
+given; angles in any mix of units, hour angle included), for every lawful file layer. -/
 theorem fits_file_roundtrip_partial {F : Type} (fl : FileLayer F) (hfl : fl.Lawful) (regs : List Reg)
-    (hrep : ∀ r ∈ regs, representable r = true) (hok : NoShortPolygon regs) (hunit : StorableUnit regs) :
+    (hrep : ∀ r ∈ regs, representable r = true) (hok : NoShortPolygon regs) :
     ∃ out, throughFile fl Variant.current regs = .ok out ∧
       List.Forall₂ SameRegion regs out ∧ ComponentsOK (regs.map (·.comp)) (out.map (·.comp)) :=
   file_roundtrip_core fl hfl Variant.current regs hrep (fun r _ => by simp [ok8, Variant.current])
     (by simp [ok9, Variant.current]) (ok10_of_noShortPolygon _ regs hok) (by simp [ok121, Variant.current])
-    (by simp only [okUnit, Bool.or_eq_true]; exact Or.inr hunit)
+    (by simp [okUnit, Variant.current])
 
-example : StorableUnit sampleList ∧ idFileLayer.Lawful := ⟨by decide +kernel, idFileLayer_lawful⟩
+example : idFileLayer.Lawful := idFileLayer_lawful
 
-/-- the F122 witness is representable, meets the F10 predicate and is outside `StorableUnit`; the same
-ellipse behind a circle is inside (the column is then in degrees and 2 hourangle is written as 30 deg). -/
-example : (∀ r ∈ wF122, representable r = true) ∧ NoShortPolygon wF122 ∧ ¬ StorableUnit wF122 ∧
-    StorableUnit (⟨.circle, false, [1], [2], [3], none, .absent, none, AUnit.degree⟩ :: wF122) := by
+/-- the former F122 witness (an ellipse in hour angle, first row) now meets the hypotheses and makes the trip
+through the executable file layer: it is written as `30 deg`. -/
+example : (∀ r ∈ wF122, representable r = true) ∧ NoShortPolygon wF122 ∧
+    throughFile idFileLayer Variant.current wF122 =
+      .ok [⟨.ellipse, false, [1], [2], [4, 2], some 30, .absent, none, AUnit.degree⟩] := by
   decide +kernel
 
 theorem fits_file_roundtrip_fixed : FileRoundTrip Variant.fixed :=
